@@ -3,6 +3,8 @@ package rtimer
 import (
 	"sync"
 	"time"
+
+	"github.com/TarsCloud/TarsGo/tars/util/vhook"
 )
 
 var (
@@ -76,6 +78,9 @@ func (tw *TimeWheel) After(timeout time.Duration) <-chan struct{} {
 	tw.lock.Lock()
 	pos = (tw.currPos + pos) % len(tw.timeWheel)
 	c := tw.timeWheel[pos]
+	if vhook.Enabled {
+		vhook.At("rtimer.after", tw, timeout, pos, tw.currPos, c)
+	}
 	tw.lock.Unlock()
 	return c
 }
@@ -86,6 +91,9 @@ func (tw *TimeWheel) run() {
 		oldestC := tw.timeWheel[tw.currPos]
 		tw.timeWheel[tw.currPos] = make(chan struct{})
 		tw.currPos = (tw.currPos + 1) % len(tw.timeWheel)
+		if vhook.Enabled {
+			vhook.At("rtimer.tick", tw, tw.currPos)
+		}
 		tw.lock.Unlock()
 		close(oldestC)
 	}
